@@ -229,6 +229,9 @@ def dfs_workloads(profile, tier):
                     out.append((dict(wl, stop={'kind': 'close', 'k': stopk}), k))
                 out.append((dict(wl, stop={'kind': 'del', 'k': max(0, n - 1)}), k))
                 out.append((dict(wl, stop={'kind': 'throw', 'k': max(0, n - 1)}), min(k, 1)))
+                if wl['kind'] in ('lpm', 'pm') and wl['workers'] == 2 and wl['buffer'] == 2 and n == 2:
+                    # a single-thread prefetch below the parallel map, the consumer stops with tasks still pending
+                    out.append((dict(wl, n=4, buffer=3, under_pf1=1, stop={'kind': 'close', 'k': 1}), 1))
                 if wl['kind'] in ('lpm', 'pm') and wl['buffer'] >= 2 and n >= 2:
                     # the input fails late, its buffered predecessors are being delivered, the consumer stops there
                     out.append((dict(wl, n=n + 1, src_fail={str(n): 'VErrA'}, stop={'kind': 'close', 'k': 1}), min(k, 1)))
